@@ -14,6 +14,7 @@
 #endif
 #include <algorithm>
 #include <functional>
+#include <iterator>
 #include <limits>
 
 using namespace nano;
@@ -77,7 +78,15 @@ static void exact_pos(int64_t K, int64_t n, int64_t& l, int64_t& r)
     l                  = static_cast<int64_t>(num / den);
     r                  = l + ((num % den) != 0 ? 1 : 0);
 }
-static double ref_at(const dvec& s, int64_t l, int64_t r) { return l == r ? s[static_cast<size_t>(l)] : (s[static_cast<size_t>(l)] + s[static_cast<size_t>(r)]) / 2; }
+// the midpoint of two neighbours: (a + b) / 2 rounded once; when a + b overflows the exact midpoint is obtained by adding
+// the quarters (exact scalings: both operands are then huge) and doubling -- a different expression than the library's
+static double ref_mid(double a, double b)
+{
+    const double s = a + b;
+    if (std::isfinite(s) || !std::isfinite(a) || !std::isfinite(b)) return s / 2;
+    return std::ldexp(std::ldexp(a, -2) + std::ldexp(b, -2), 1);
+}
+static double ref_at(const dvec& s, int64_t l, int64_t r) { return l == r ? s[static_cast<size_t>(l)] : ref_mid(s[static_cast<size_t>(l)], s[static_cast<size_t>(r)]); }
 
 // reference percentile of a sorted copy; exact on the dyadic grid, otherwise the candidates that the exact
 // position and the position rounded to an integer within 1e-9 allow
@@ -526,6 +535,338 @@ struct gen_t
     }
 };
 
+
+// ----------------------------------------------------------------------------------------------------------
+// extension: the position stage (POS / MID lines) -- detail::percentile over a lazily generated sorted array
+// a[i] = i (no storage: sizes up to 2^46 + 1), aimed at the side condition of C20_position_exact
+// ----------------------------------------------------------------------------------------------------------
+struct iota_it
+{
+    using iterator_category = std::random_access_iterator_tag;
+    using value_type        = int64_t;
+    using difference_type   = std::ptrdiff_t;
+    using pointer           = const int64_t*;
+    using reference         = int64_t;
+    int64_t i = 0;
+    int64_t          operator*() const { return i; }
+    iota_it&         operator++() { ++i; return *this; }
+    iota_it&         operator--() { --i; return *this; }
+    iota_it&         operator+=(difference_type d) { i += d; return *this; }
+    friend iota_it   operator+(iota_it a, difference_type d) { a.i += d; return a; }
+    friend difference_type operator-(iota_it a, iota_it b) { return a.i - b.i; }
+    friend bool      operator==(iota_it a, iota_it b) { return a.i == b.i; }
+    friend bool      operator!=(iota_it a, iota_it b) { return a.i != b.i; }
+    friend bool      operator<(iota_it a, iota_it b) { return a.i < b.i; }
+};
+
+struct pos_result
+{
+    double  value = 0;
+    int64_t lpos = -1, rpos = -1;
+    int     calls = 0;
+};
+
+static pos_result run_pos(double p, int64_t n)
+{
+    pos_result res;
+    res.value = nano::detail::percentile(iota_it{0}, iota_it{n}, p,
+                                         [&](auto pos)
+                                         {
+                                             const auto ip = static_cast<int64_t>(pos);
+                                             if (res.calls == 0) res.lpos = ip;
+                                             res.rpos = ip;
+                                             ++res.calls;
+                                             return static_cast<double>(ip);
+                                         });
+    return res;
+}
+
+// p = k / 2^j in lowest terms (k odd or zero), for a finite non-negative double
+static bool dyadic_of(double p, int64_t& k, int& j)
+{
+    if (!(p >= 0.0) || std::isinf(p)) return false;
+    if (p == 0.0) { k = 0; j = 0; return true; }
+    int          e = 0;
+    const double f = std::frexp(p, &e); // p = f * 2^e, f in [0.5, 1)
+    auto         m = static_cast<int64_t>(std::ldexp(f, 53)); // 53-bit integer, p = m * 2^(e-53)
+    int          x = e - 53;
+    while ((m & 1) == 0) { m >>= 1; ++x; }
+    if (x > 0)
+    {
+        if (x > 9) return false; // p > 100 anyway
+        m <<= x;
+        x = 0;
+    }
+    k = m;
+    j = -x;
+    return true;
+}
+
+// the side condition of C20_position_exact and the exact floor / ceiling of k (n-1) / (100 2^j), coded
+// independently of the Coq model (128-bit integers)
+static bool exact_reference(double p, int64_t n, int64_t& l, int64_t& r)
+{
+    int64_t k = 0;
+    int     j = 0;
+    if (!dyadic_of(p, k, j) || j > 1015 || n < 1) return false;
+    const __int128 N = static_cast<__int128>(k) * (n - 1);
+    if (n - 1 >= (int64_t(1) << 53) || N >= (static_cast<__int128>(1) << 53)) return false;
+    if (j > 60)
+    {
+        l = 0;
+        r = N > 0 ? 1 : 0;
+        return true;
+    }
+    const __int128 D = static_cast<__int128>(100) << j;
+    l                = static_cast<int64_t>(N / D);
+    r                = l + ((N % D) != 0 ? 1 : 0);
+    return true;
+}
+
+static std::string pos_violation(double p, int64_t n)
+{
+    const auto res = run_pos(p, n);
+    if (res.calls < 1 || res.calls > 2) return "from_position called " + std::to_string(res.calls) + " times";
+    if (!(res.lpos >= 0 && res.lpos <= res.rpos && res.rpos <= n - 1 && res.rpos <= res.lpos + 1))
+        return "indices out of range / not neighbours: lpos = " + std::to_string(res.lpos) + ", rpos = " + std::to_string(res.rpos);
+    if ((res.calls == 1) != (res.lpos == res.rpos)) return "one element selected although lpos != rpos (or two although equal)";
+    int64_t l = 0, r = 0;
+    if (exact_reference(p, n, l, r))
+    {
+        if (res.lpos != l || res.rpos != r)
+            return "lpos = " + std::to_string(res.lpos) + ", rpos = " + std::to_string(res.rpos) + ", exact floor/ceil of p*(n-1)/100: " +
+                   std::to_string(l) + ", " + std::to_string(r) + " [exact rule, k*(n-1) < 2^53]";
+        const double e = l == r ? static_cast<double>(l) : (static_cast<double>(l) + static_cast<double>(r)) / 2;
+        if (!same(res.value, e)) return "value " + vh::hexf(res.value) + ", sorted-array reference " + vh::hexf(e) + " [exact rule]";
+    }
+    else
+    {
+        // any double in [0, 100]: the value is the selected element or the midpoint of the two selected elements,
+        // and the indices are within one of the exact ones (long double estimate)
+        const double e = res.lpos == res.rpos ? static_cast<double>(res.lpos) : (static_cast<double>(res.lpos) + static_cast<double>(res.rpos)) / 2;
+        if (!same(res.value, e)) return "value " + vh::hexf(res.value) + " is not the element / midpoint at the selected indices";
+        const long double pos = static_cast<long double>(p) * static_cast<long double>(n - 1) / 100.0L;
+        if (std::fabs(static_cast<double>(static_cast<long double>(res.lpos) - std::floor(pos))) > 1.0 ||
+            std::fabs(static_cast<double>(static_cast<long double>(res.rpos) - std::ceil(pos))) > 1.0)
+            return "indices more than one away from the exact position";
+    }
+    if (n <= 4096)
+    {
+        const double v = nano::percentile_sorted(iota_it{0}, iota_it{n}, p);
+        if (!same(v, res.value)) return "percentile_sorted differs from detail::percentile";
+    }
+    return "";
+}
+
+static void pos_case(double p, int64_t n)
+{
+    const auto res = run_pos(p, n);
+    std::printf("POS %s %" PRId64 " = %s ; %" PRId64 " ; %" PRId64 "\n", vh::hexf(p).c_str(), n, vh::hexf(res.value).c_str(), res.lpos, res.rpos);
+    ++g_lines;
+    const auto why = pos_violation(p, n);
+    if (!why.empty())
+    {
+        std::printf("FAIL POS p=%s n=%" PRId64 " :: %s\n", vh::hexf(p).c_str(), n, why.c_str());
+        ++g_fail;
+    }
+}
+
+// monotonicity in the percentage for one size
+static void pos_monotone(dvec ps, int64_t n)
+{
+    std::sort(ps.begin(), ps.end());
+    int64_t pl = 0, pr = 0;
+    double  pp = 0;
+    for (size_t i = 0; i < ps.size(); ++i)
+    {
+        const auto res = run_pos(ps[i], n);
+        if (i > 0 && (res.lpos < pl || res.rpos < pr))
+        {
+            std::printf("FAIL POSM p=%s q=%s n=%" PRId64 " :: indices not monotone in the percentage: (%" PRId64 ",%" PRId64 ") then (%" PRId64 ",%" PRId64 ")\n",
+                        vh::hexf(pp).c_str(), vh::hexf(ps[i]).c_str(), n, pl, pr, res.lpos, res.rpos);
+            ++g_fail;
+        }
+        pl = res.lpos;
+        pr = res.rpos;
+        pp = ps[i];
+    }
+}
+
+static std::string mid_violation(double a, double b, double& got)
+{
+    dvec v = {a, b};
+    got    = nano::percentile_sorted(v.begin(), v.end(), 50.0);
+    dvec w = {b, a};
+    const double u = nano::percentile(w.begin(), w.end(), 50.0);
+    if (!same(u, got) && !(u == got)) return "percentile and percentile_sorted differ on two values";
+    // the property's reference: the midpoint of the two neighbours (exact reference, rounded once)
+    const double e = ref_mid(a, b);
+    if (!same(got, e) && !(got == e)) return "midpoint " + vh::hexf(got) + " differs from the reference midpoint " + vh::hexf(e);
+    // for ALL finite a <= b (also when a + b overflows): finite and between the two values
+    if (!(std::isfinite(got) && a <= got && got <= b)) return "midpoint " + vh::hexf(got) + " is not a finite value in [a, b]";
+    return "";
+}
+
+static void mid_case(double a, double b)
+{
+    if (a > b) std::swap(a, b);
+    double     got = 0;
+    const auto why = mid_violation(a, b, got);
+    std::printf("MID %s %s = %s\n", vh::hexf(a).c_str(), vh::hexf(b).c_str(), vh::hexf(got).c_str());
+    ++g_lines;
+    if (!why.empty())
+    {
+        std::printf("FAIL MID a=%s b=%s :: %s\n", vh::hexf(a).c_str(), vh::hexf(b).c_str(), why.c_str());
+        ++g_fail;
+    }
+}
+
+static int64_t egcd(int64_t a, int64_t b, int64_t& x, int64_t& y)
+{
+    if (b == 0) { x = 1; y = 0; return a; }
+    int64_t x1 = 0, y1 = 0;
+    const auto g = egcd(b, a % b, x1, y1);
+    x = y1;
+    y = x1 - (a / b) * y1;
+    return g;
+}
+
+static void pos_stage(gen_t& g, long rounds)
+{
+    auto& rng = g.rng;
+    // the witnesses of the refuted statements (outside the side condition: only the range rule applies) and fixed points
+    pos_case(100.0 / 3.0, 4);
+    pos_case(74151217.0 / 1048576.0, 1983666872);
+    pos_case(std::numeric_limits<double>::denorm_min(), 2);
+    pos_case(8.8, 376);
+    pos_case(0.4, 251);
+    pos_case(12.5, (int64_t(1) << 30) + 1);
+    pos_case(100.0, (int64_t(1) << 46) + 1);
+    pos_case(std::nextafter(100.0, 0.0), (int64_t(1) << 46) + 1);
+    pos_case(50.0, (int64_t(1) << 46));
+    pos_case(0.0, (int64_t(1) << 46) + 1);
+    for (long c = 0; c < rounds; ++c)
+    {
+        dvec    ps;
+        int64_t n = 2;
+        switch (rng.range(0, 5))
+        {
+        case 0:
+        case 1:
+        {
+            // A. inside the side condition for EVERY k <= 100 2^j: D (n-1) < 2^53; exact positions that are integers,
+            // one unit of 1/D next to an integer (the smallest possible distance), and random ones
+            const int     j = static_cast<int>(rng.range(0, 26));
+            const int64_t D = int64_t(100) << j;
+            const int64_t mmax = std::min<int64_t>(((int64_t(1) << 53) - 1) / D, (int64_t(1) << 31));
+            if (mmax < 2) break;
+            const int a = static_cast<int>(rng.range(1, 62));
+            int64_t   m = rng.range(1, std::min<int64_t>(mmax, (int64_t(1) << std::min(a, 40))));
+            if (rng.range(0, 2) == 0)
+            {
+                // sizes sharing a large factor with D: many integral positions
+                const int64_t f = (int64_t(1) << rng.range(0, std::min<int64_t>(j + 2, 20))) * (rng.range(0, 1) ? 25 : rng.range(0, 1) ? 5 : 1);
+                m = std::max<int64_t>(1, m / f) * f;
+                if (m > mmax) m = std::max<int64_t>(1, mmax / f) * f;
+                if (m > mmax || m < 1) m = 1;
+            }
+            n = m + 1;
+            int64_t x = 0, y = 0;
+            const auto gd = egcd(m % D, D, x, y); // x * m + y * D = gd
+            const int64_t Dg = D / gd;
+            const auto    inv = static_cast<int64_t>(((static_cast<__int128>(x) % Dg) + Dg) % Dg); // (m/gd)^-1 mod D/gd
+            for (int rep = 0; rep < 6; ++rep)
+            {
+                // residue delta * gd of k*m modulo D
+                const int64_t delta = rep == 0 ? 0 : rep == 1 ? 1 : rep == 2 ? Dg - 1 : rep == 3 ? 2 : rng.range(0, Dg - 1);
+                auto          k     = static_cast<int64_t>((static_cast<__int128>(delta % Dg) * inv) % Dg);
+                k += Dg * rng.range(0, gd - 1 > 0 ? gd - 1 : 0);
+                if (rep == 0 && rng.range(0, 1)) k += Dg; // up to and including 100 %
+                if (k > D) k = k % (D + 1);
+                const double p = std::ldexp(static_cast<double>(k), -j);
+                if (p >= 0.0 && p <= 100.0) ps.push_back(p);
+            }
+            break;
+        }
+        case 2:
+        {
+            // B. large sizes with simple percentages (inside the side condition while k (n-1) < 2^53)
+            const int a = static_cast<int>(rng.range(20, 46));
+            n           = (int64_t(1) << a) + rng.range(-3, 3) + (rng.range(0, 3) == 0 ? rng.range(0, int64_t(1) << (a - 1)) : 0);
+            if (n - 1 > (int64_t(1) << 46)) n = (int64_t(1) << 46) + 1;
+            ps = {0.0, 50.0, 100.0, 25.0, 12.5, static_cast<double>(rng.range(0, 100)), static_cast<double>(rng.range(0, 1600)) / 16.0,
+                  static_cast<double>(rng.range(0, 102400)) / 1024.0, std::ldexp(static_cast<double>(rng.range(0, 99) * 1048576 + rng.range(0, 1048575)), -20)};
+            break;
+        }
+        case 3:
+        {
+            // C. outside the side condition: one ulp around percentages whose exact position is an integer z
+            n             = rng.range(0, 2) ? rng.range(2, 2000) : (int64_t(1) << rng.range(10, 30)) + rng.range(-2, 2);
+            const auto m  = n - 1;
+            for (int rep = 0; rep < 3; ++rep)
+            {
+                const auto   z = rng.range(0, m);
+                const double q = 100.0 * static_cast<double>(z) / static_cast<double>(m);
+                ps.push_back(q);
+                ps.push_back(std::nextafter(q, 0.0));
+                if (q < 100.0) ps.push_back(std::nextafter(q, 200.0));
+            }
+            break;
+        }
+        case 4:
+        {
+            // decimal percentages with sizes on which the decimal position is an integer
+            static const int64_t mult[] = {10, 100, 1000, 20, 40, 50, 125, 200, 250, 500, 375};
+            n = mult[rng.range(0, 10)] * rng.range(1, 40) + 1;
+            if (rng.range(0, 3) == 0) n = n * 1024 - 1023;
+            for (int rep = 0; rep < 4; ++rep) ps.push_back(static_cast<double>(rng.range(0, 1000)) / 10.0);
+            ps.push_back(static_cast<double>(rng.range(0, 10000)) / 100.0);
+            ps.push_back(100.0 * rng.unit());
+            break;
+        }
+        default:
+        {
+            // D. extremes: subnormal and tiny percentages (underflow of the quotient), the largest ones, smallest sizes
+            n = rng.range(0, 1) ? rng.range(1, 3) : (int64_t(1) << rng.range(1, 46)) + 1;
+            ps = {std::numeric_limits<double>::denorm_min() * static_cast<double>(rng.range(1, 4)), std::ldexp(1.0, -static_cast<int>(rng.range(1000, 1074))),
+                  std::ldexp(static_cast<double>(rng.range(1, 1000)), -static_cast<int>(rng.range(30, 1020))), std::numeric_limits<double>::min(),
+                  std::nextafter(100.0, 0.0), 100.0, 0.0, std::nextafter(0.0, 1.0), std::nextafter(50.0, 100.0)};
+            break;
+        }
+        }
+        for (double p : ps) pos_case(p, n);
+        if (ps.size() > 1) pos_monotone(ps, n);
+        // midpoints: ordinary, equal, opposite signs, subnormal, and pairs whose sum overflows
+        {
+            double a = 0, b = 0;
+            switch (rng.range(0, 5))
+            {
+            case 0: a = static_cast<double>(rng.range(-1000000, 1000000)) / 64.0; b = a + static_cast<double>(rng.range(0, 1000)) / 64.0; break;
+            case 1: a = (rng.unit() - 0.5) * 1e6; b = (rng.unit() - 0.5) * 1e6; break;
+            case 2: a = std::ldexp(rng.unit() + 0.5, 1023) * (rng.range(0, 1) ? 1 : -1); b = std::ldexp(rng.unit() + 0.5, 1023) * (a < 0 ? -1 : 1); break; // overflow
+            case 3: a = std::numeric_limits<double>::denorm_min() * static_cast<double>(rng.range(-5, 5)); b = std::numeric_limits<double>::denorm_min() * static_cast<double>(rng.range(-5, 5)); break;
+            case 4: a = std::numeric_limits<double>::max(); b = rng.range(0, 1) ? a : std::nextafter(a, 0.0); if (rng.range(0, 1)) { a = -a; b = -b; } break;
+            default: a = std::ldexp(rng.unit(), static_cast<int>(rng.range(-1070, 1020))); b = std::nextafter(a, rng.range(0, 1) ? 1e308 : -1e308); break;
+            }
+            if (!(a == 0.0 && std::signbit(a)) && !(b == 0.0 && std::signbit(b))) mid_case(a, b);
+            // overflow pairs (the defect repaired by /repo 985fdb5), permanently: both signs; one operand just below 2^1023 and
+            // the other around 2^1023 (the sum straddles the overflow threshold 2^1024 - 2^970); mixed signs (no overflow)
+            const double sg  = rng.range(0, 1) ? 1.0 : -1.0;
+            const double big = std::numeric_limits<double>::max();
+            switch (rng.range(0, 5))
+            {
+            case 0: a = sg * big; b = sg * big; break;
+            case 1: a = sg * std::ldexp(1.0 - std::ldexp(static_cast<double>(rng.range(1, 8)), -53), 1023); b = sg * std::ldexp(1.0 + std::ldexp(static_cast<double>(rng.range(0, 8)), -52), 1023); break;
+            case 2: a = sg * std::ldexp(1.0 - std::ldexp(static_cast<double>(rng.range(1, 1 << 20)), -53), 1023); b = sg * std::ldexp(1.0 + rng.unit(), 1023); break;
+            case 3: a = -std::ldexp(1.0 + rng.unit(), 1023); b = std::ldexp(1.0 + rng.unit(), 1023); break; // mixed signs: the sum is small
+            case 4: a = sg * std::ldexp(1.0 + rng.unit(), 1023); b = sg * std::ldexp(1.0 + rng.unit(), 1022 + static_cast<int>(rng.range(0, 1))); break;
+            default: a = sg * std::ldexp(rng.unit() + 0.5, static_cast<int>(rng.range(960, 1023))); b = sg * big; break; // the smaller one near 2^970
+            }
+            if (!(a == 0.0 && std::signbit(a)) && !(b == 0.0 && std::signbit(b))) mid_case(a, b);
+        }
+    }
+}
+
 template <class T>
 static void pct_cases(const dvec& vals, const dvec& ps, const char* tname)
 {
@@ -663,6 +1004,21 @@ static void one_list(gen_t& g, const dvec& vals, int s, const char* tname)
         dvec thr = to_dvec(make_hist<T>(hkind::percentiles, vals, ps).thresholds());
         hist_case<T>(hkind::percentiles, vals, ps, g.queries(thr, vals), tname);
     }
+    // ... from percentiles aimed at the position rule: exact positions that are integers (where representable) and the
+    // doubles next to them
+    if (n > 1 && g.rng.range(0, 1) == 0)
+    {
+        dvec ps;
+        for (int rep = 0; rep < 3; ++rep)
+        {
+            const auto   z = g.rng.range(0, n - 1);
+            const double q = 100.0 * static_cast<double>(z) / static_cast<double>(n - 1);
+            ps.push_back(q);
+            if (g.rng.range(0, 1)) ps.push_back(q > 0.0 && g.rng.range(0, 1) ? std::nextafter(q, 0.0) : std::min(100.0, std::nextafter(q, 200.0)));
+        }
+        dvec thr = to_dvec(make_hist<T>(hkind::percentiles, vals, ps).thresholds());
+        hist_case<T>(hkind::percentiles, vals, ps, g.queries(thr, vals), tname);
+    }
     // ... from exponents (log/pow: the thresholds are taken from the implementation)
     if (g.rng.range(0, 2) == 0)
     {
@@ -688,6 +1044,20 @@ int main(int argc, char** argv)
         std::printf("%s\n", why.empty() ? "OK" : ("FAIL " + why).c_str());
         return why.empty() ? 0 : 1;
     }
+    if (mode == "pos" && argc >= 4)
+    {
+        const double p = vh::parsef(argv[2]);
+        const auto   n = static_cast<int64_t>(std::strtoll(argv[3], nullptr, 10));
+        pos_case(p, n);
+        std::printf("%s\n", g_fail == 0 ? "OK" : "FAIL");
+        return g_fail == 0 ? 0 : 1;
+    }
+    if (mode == "mid" && argc >= 4)
+    {
+        mid_case(vh::parsef(argv[2]), vh::parsef(argv[3]));
+        std::printf("%s\n", g_fail == 0 ? "OK" : "FAIL");
+        return g_fail == 0 ? 0 : 1;
+    }
     if (mode == "hist" && argc >= 5)
     {
         const dvec thr = parse_list(argv[2]), vals = parse_list(argv[3]), q = parse_list(argv[4]);
@@ -709,6 +1079,10 @@ int main(int argc, char** argv)
         else if (s == 0 && tsel < 5) one_list<int64_t>(g, vals, s, "int64");
         else if (tsel == 5 && amax < 1.0e6) one_list<float>(g, vals, s, "float");
         else one_list<double>(g, vals, s, "double");
+    }
+    {
+        gen_t gp(vh::env_seed() * 0x9E3779B97F4A7C15ULL + 2020);
+        pos_stage(gp, mode == "thorough" ? 60000 : 6000);
     }
     std::printf("DONE lists=%ld lines=%ld fails=%ld\n", g_cases, g_lines, g_fail);
     return 0;
